@@ -577,6 +577,10 @@ static void c10h_case(uint64_t idx)
 static void make_file(vrng *r, int kind, uint32_t dict, unsigned nblocks, vbuf *file, vbuf *pl)
 {
 	vbuf_clear(file); vbuf_clear(pl);
+	// dictionaries above 64 MiB are only DECLARED: the stream is encoded with 1 MiB and the header field is
+	// rewritten afterwards (the decoder allocates what the header says)
+	uint32_t declared = dict;
+	if (dict > (64u << 20)) dict = 1u << 20;
 	lzma_options_lzma o; lzma_lzma_preset(&o, 0); o.dict_size = dict; o.mf = LZMA_MF_HC3; o.depth = 4; o.nice_len = 16;
 	gen_data(r, pl, 2000 + vrng_below(r, 30000), -1, 4096);
 	lzma_stream s = LZMA_STREAM_INIT;
@@ -634,11 +638,23 @@ static void make_file(vrng *r, int kind, uint32_t dict, unsigned nblocks, vbuf *
 			lzma_action a = b + 1 == nblocks ? LZMA_FINISH : LZMA_FULL_FLUSH; lzma_ret ret;
 			do { s.next_out = ob; s.avail_out = sizeof(ob); ret = lzma_code(&s, a); vbuf_append(file, ob, sizeof(ob) - s.avail_out); } while (ret == LZMA_OK);
 		}
+		if (declared != dict && file->n > 12 + 8) {
+			// Block Header at offset 12: find the LZMA2 filter flags (ID 0x21, size 1) and rewrite the dictionary byte
+			size_t hs = ((size_t)file->p[12] + 1) * 4;
+			unsigned bits = 0; while ((1u << (bits + 1)) <= declared && bits < 31) ++bits;      // floor(log2)
+			uint8_t code = (uint8_t)((bits - 11) * 2 - 2 + ((declared >> (bits - 1)) & 1 ? 1 : 0) + 0);
+			code = (uint8_t)((bits - 12) * 2 + (((declared >> (bits - 1)) & 1) ? 1 : 0));
+			for (size_t i = 14; i + 2 < 12 + hs - 4; ++i) if (file->p[i] == 0x21 && file->p[i + 1] == 0x01) { file->p[i + 2] = code; break; }
+			uint32_t crc = lzma_crc32(file->p + 12, hs - 4, 0);
+			for (int i = 0; i < 4; ++i) file->p[12 + hs - 4 + (size_t)i] = (uint8_t)(crc >> (8 * i));
+		}
 	} else if (kind == 1) {
 		if (lzma_alone_encoder(&s, &o) != LZMA_OK) return;
 		s.next_in = pl->p; s.avail_in = pl->n; lzma_ret ret;
 		do { s.next_out = ob; s.avail_out = sizeof(ob); ret = lzma_code(&s, LZMA_FINISH); vbuf_append(file, ob, sizeof(ob) - s.avail_out); } while (ret == LZMA_OK);
+		if (declared != dict && file->n > 13) for (int i = 0; i < 4; ++i) file->p[1 + i] = (uint8_t)(declared >> (8 * i));
 	} else {
+		dict = declared;
 		uint32_t d = dict < 4096 ? 4096 : dict; if (d > (1u << 29)) d = 1u << 29;
 		lzip_member(r, pl->p, pl->n, 1, d, file);
 	}
